@@ -87,6 +87,10 @@ func init() {
 		if err != nil {
 			evid.Inconclusive("trace validation: %v", err)
 		}
+		vstates, vsched := verdictFamily(run)
+		fmt.Printf("C04: Verdict.tla %d states (violated with the deviation switched on); %d gated stale-verdict schedules replayed and validated by TLC\n", vstates, vsched)
+		mc.Distinct += vstates
+		np += vsched
 		rc, rev := repoTestTraces(run, map[string]bool{"C04": true})
 		fmt.Printf("C04: %d connections (%d hook events) of the repository's own test suite validated by TLC (enhanced code of every reply)\n", rc, rev)
 		fmt.Printf("C04: TLC %d states; %d/%d edges lock-step; %d pipelined/segmented paths; %d recorded walks validated (%d accepted)\n",
